@@ -61,11 +61,23 @@ func smartEntry(name string, box orb.Bound, o orb.Orientation) entry {
 }
 
 func roundEntry(name string, factor []int) entry {
-	return entry{name: name, combine: "map", call: func(g orb.Geometry) string { return gsn(orb.Round(g, factor...)) }}
+	return entry{name: name, alts: true, combine: "map", call: func(g orb.Geometry) string { return gsn(orb.Round(g, factor...)) }}
+}
+
+// roundDefEntry: orb.Round with the package variable orb.DefaultRoundingFactor set to d for the
+// duration of the call (the only way to a factor that is not an integer, or beyond the int range)
+// and restored afterwards — also when the call panics.
+func roundDefEntry(name string, d float64, factor []int) entry {
+	return entry{name: name, alts: true, combine: "map", call: func(g orb.Geometry) string {
+		old := orb.DefaultRoundingFactor
+		orb.DefaultRoundingFactor = d
+		defer func() { orb.DefaultRoundingFactor = old }()
+		return gsn(orb.Round(g, factor...))
+	}}
 }
 
 func projEntry(name string, f orb.Projection) entry {
-	return entry{name: name, combine: "map", call: func(g orb.Geometry) string { return gsn(project.Geometry(g, f)) },
+	return entry{name: name, alts: true, combine: "map", call: func(g orb.Geometry) string { return gsn(project.Geometry(g, f)) },
 		typed: func(g orb.Geometry) string {
 			switch v := g.(type) {
 			case orb.Point:
@@ -154,14 +166,58 @@ func mergeEntry(name string, z, target maptile.Zoom) entry {
 		}}
 }
 
+// distTyped: the distance (and index) from the exported kind-specific pieces: planar.Distance for a
+// point; for a multi-point the first point at the least planar.DistanceSquared; for a line (and a
+// ring, measured as the line of its vertices) the first segment at the least
+// planar.DistanceFromSegmentSquared; the square root of that least value.
+func distTyped(g orb.Geometry, pt orb.Point) (float64, int, bool) {
+	segs := func(ps []orb.Point) (float64, int, bool) {
+		dist, index := math.Inf(1), -1
+		for i := 0; i < len(ps)-1; i++ {
+			if d := planar.DistanceFromSegmentSquared(ps[i], ps[i+1], pt); d < dist {
+				dist, index = d, i
+			}
+		}
+		return math.Sqrt(dist), index, true
+	}
+	switch v := g.(type) {
+	case orb.Point:
+		return planar.Distance(v, pt), 0, true
+	case orb.MultiPoint:
+		dist, index := math.Inf(1), -1
+		for i := range v {
+			if d := planar.DistanceSquared(v[i], pt); d < dist {
+				dist, index = d, i
+			}
+		}
+		return math.Sqrt(dist), index, true
+	case orb.LineString:
+		return segs(v)
+	case orb.Ring:
+		return segs(v)
+	}
+	return 0, 0, false
+}
+
 func distEntry(name string, pt orb.Point) entry {
-	return entry{name: name, readOnly: true, combine: "min", call: func(g orb.Geometry) string { return fb(planar.DistanceFrom(g, pt)) }}
+	return entry{name: name, readOnly: true, alts: true, combine: "min", call: func(g orb.Geometry) string { return fb(planar.DistanceFrom(g, pt)) },
+		typed: func(g orb.Geometry) string {
+			if d, _, ok := distTyped(g, pt); ok {
+				return fb(d)
+			}
+			return "-"
+		}}
 }
 
 func distIdxEntry(name string, pt orb.Point) entry {
-	return entry{name: name, readOnly: true, combine: "minidx", call: func(g orb.Geometry) string {
+	return entry{name: name, readOnly: true, alts: true, combine: "minidx", call: func(g orb.Geometry) string {
 		d, i := planar.DistanceFromWithIndex(g, pt)
 		return fb(d) + "_" + fmt.Sprint(i)
+	}, typed: func(g orb.Geometry) string {
+		if d, i, ok := distTyped(g, pt); ok {
+			return fb(d) + "_" + fmt.Sprint(i)
+		}
+		return "-"
 	}}
 }
 
@@ -294,9 +350,26 @@ func c20ParamEntry(base, tok string) *entry {
 			return mk(simpEntry(base, func() orb.Simplifier { return simplify.Visvalingam(v[0], k) }))
 		}
 		return nil
-	case "round": // def | <factor> | <factor>_<ignored second factor>
+	case "round": // def | <factor> | <factor>_<ignored second factor> | D<default factor bits>[_<factor>…]
 		if tok == "def" {
 			return mk(roundEntry(base, nil))
+		}
+		if strings.HasPrefix(f[0], "D") {
+			// the package default orb.DefaultRoundingFactor set to the given float64 for the call; explicit
+			// factors after it (which must then win over the default)
+			d, ok := pfloats([]string{f[0][1:]})
+			if !ok {
+				return nil
+			}
+			var fac []int
+			for _, x := range f[1:] {
+				n, err := strconv.Atoi(x)
+				if err != nil {
+					return nil
+				}
+				fac = append(fac, n)
+			}
+			return mk(roundDefEntry(base, d[0], fac))
 		}
 		var fac []int
 		for _, x := range f {
@@ -497,6 +570,15 @@ func c20Grids() []pgrid {
 		}
 	}
 	roundToks := []string{"def", "1", "0", "-10", "3", "1000000", "1125899906842624", "4611686018427387904", "10_7", "-1"}
+	// orb.DefaultRoundingFactor varied (restored after every call): non-integers, beyond the int
+	// range, tiny, zero, negative, non-finite — with no explicit factor (the default is used: also by
+	// the members of a collection) and with one (which must win)
+	roundDefs := []float64{2.5, 0.5, 0.1, 1e-3, 1.5, 1e6 + 0.5, 3, 1e30, 9.3e18, 1e300, 5e-324, 0, math.Copysign(0, -1), -1, -2.5, -1e30,
+		math.NaN(), math.Inf(1), math.Inf(-1)}
+	for _, d := range roundDefs {
+		roundToks = append(roundToks, "D"+hb(d))
+	}
+	roundToks = append(roundToks, "D"+hb(2.5)+"_10", "D"+hb(math.NaN())+"_3", "D"+hb(0)+"_1_7")
 	return []pgrid{
 		{base: "smartclip", toks: smartToks, rnd: func(r *rand.Rand) string {
 			o := []int{-1, -1, -1, 1, 1}[r.Intn(5)]
@@ -517,8 +599,17 @@ func c20Grids() []pgrid {
 			return fmt.Sprintf("b_%s_%d", hb(rthr(r)), r.Intn(7))
 		}},
 		{base: "round", toks: roundToks, rnd: func(r *rand.Rand) string {
-			if r.Intn(2) == 0 {
+			switch r.Intn(4) {
+			case 0:
 				return roundToks[r.Intn(len(roundToks))]
+			case 1: // a random default: a quarter-integer, a power of ten (either sign of the exponent), any float64
+				switch r.Intn(3) {
+				case 0:
+					return "D" + hb(float64(r.Intn(8001)-4000)/4)
+				case 1:
+					return "D" + hb(math.Pow(10, float64(r.Intn(41)-20))*(1+float64(r.Intn(3))/2))
+				}
+				return "D" + hb(coord(r, CoordBits))
 			}
 			return fmt.Sprint(r.Intn(2001) - 1000)
 		}},
@@ -634,8 +725,19 @@ func genC20Params(c *Ctx, idx int) int {
 		}
 		c.Case("callp", g.base+" "+tok+" "+gsN(v))
 	}
+	specials := c20SpecialLeaves()
 	for _, g := range c20Grids() {
-		for _, tok := range g.toks {
+		for ti, tok := range g.toks {
+			// values with non-finite / huge / tiny / signed-zero coordinates: a rotating eleventh of them
+			// per parameter value (every one of them meets every entry point; tile cover: c20TileRisk)
+			if !c20TileEntry(g.base) {
+				for i, sp := range specials {
+					if (i+ti)%11 == 0 {
+						emit(g, tok, sp)
+						emit(g, tok, orb.Collection{orb.LineString{{0.5, 0.5}, {3.5, 0.5}, {3.5, 1.5}}, sp})
+					}
+				}
+			}
 			emit(g, tok, nil)
 			for _, a := range leaves {
 				for _, v := range c20Wraps(a, g.small) {
@@ -660,7 +762,7 @@ func genC20Params(c *Ctx, idx int) int {
 
 // genC20ParamsRandom: random values with random parameter values (a second loop of c.Budget cases; the
 // random family of `call` keeps its own budget)
-func genC20ParamsRandom(c *Ctx, opts func() GenOpts) {
+func genC20ParamsRandom(c *Ctx, opts, safeOpts func() GenOpts) {
 	grids := c20Grids()
 	cuts := c20CutLeaves()
 	for k := 0; k < c.Budget && !c.Exhausted(); k++ {
@@ -679,6 +781,12 @@ func genC20ParamsRandom(c *Ctx, opts func() GenOpts) {
 		}
 		if g.prep != nil {
 			v = g.prep(tok, v)
+		}
+		if c20TileEntry(g.base) && c20TileRisk(v, c20TileZoom(tok)) {
+			v = genGeom(c.Rng, safeOpts(), 0)
+			if g.prep != nil {
+				v = g.prep(tok, v)
+			}
 		}
 		c.Case("callp", g.base+" "+tok+" "+gsN(v))
 	}
